@@ -3,7 +3,9 @@
 package osmpbf
 
 import (
+	"bytes"
 	"context"
+	"encoding/binary"
 	"io"
 	"time"
 
@@ -25,6 +27,7 @@ func pbfFlatten(objs [][]osm.Object, upto int) []osm.Object {
 //@ func oracleC01Decode
 //@   props C01 C02
 //@   oracle
+//@   covers osm/osmpbf.
 func oracleC01Decode(f PbfFile, procs int) {
 	pbfNormalize(&f)
 	data, _, objs := pbfBuild(f)
@@ -47,6 +50,7 @@ func oracleC01Decode(f PbfFile, procs int) {
 //@ func oracleC06Truncation
 //@   props C06
 //@   oracle
+//@   covers osm/osmpbf.
 func oracleC06Truncation(f PbfFile, cutSel int, procs int) {
 	pbfNormalize(&f)
 	data, starts, objs := pbfBuild(f)
@@ -89,10 +93,63 @@ func oracleC06Truncation(f PbfFile, cutSel int, procs int) {
 //@ func oracleC06Damage
 //@   props C06
 //@   oracle
+//@   covers osm/osmpbf.
 func oracleC06Damage(f PbfFile, kind int) {
 	pbfNormalize(&f)
 	vAssume(len(f.Blocks) > 0)
+	if pbfAbs(kind)%5 >= 3 {
+		// damage inside the last data block: string references outside the string table,
+		// or parallel columns of different length
+		last := &f.Blocks[len(f.Blocks)-1]
+		vAssume(len(last.Ways)+len(last.Rels)+len(last.Nodes) > 0)
+		if pbfAbs(kind)%5 == 3 {
+			// effective only if the block references a string at all
+			refs := last.DenseInfo && len(last.Nodes) > 0
+			for _, n := range last.Nodes {
+				refs = refs || len(n.Tags) > 0
+			}
+			for _, w := range last.Ways {
+				refs = refs || len(w.Tags) > 0 || w.HasInfo
+			}
+			for _, r := range last.Rels {
+				refs = refs || len(r.Tags) > 0 || r.HasInfo || len(r.Members) > 0
+			}
+			vAssume(refs)
+			last.ShortStrings = true
+		} else {
+			// effective only if some way has refs (lat column longer than refs) or some relation has
+			// a member (a relation without a types column is read as one without members)
+			eff := false
+			for _, w := range last.Ways {
+				eff = eff || len(w.Refs) > 0
+			}
+			for _, r := range last.Rels {
+				eff = eff || len(r.Members) > 0
+			}
+			vAssume(eff)
+			last.ExtraColumn = true
+		}
+		data, _, objs := pbfBuild(f)
+		res := pbfScan(data, 1, nil, 0)
+		vAssert(!res.Hung)
+		vAssert(res.Panic == nil)
+		vAssert(res.Err != nil)
+		want := pbfFlatten(objs, len(objs)-1)
+		vAssert(len(res.Objects) == len(want))
+		return
+	}
 	data, starts, _ := pbfBuild(f)
+	if pbfAbs(kind)%5 == 2 {
+		// oversized header length prefix (between the 64 KiB header limit and the 32 MiB blob limit)
+		k := pbfAbs(kind/5) % (len(starts) - 1)
+		mut := append([]byte{}, data...)
+		binary.BigEndian.PutUint32(mut[starts[k]:], uint32(65537+pbfAbs(kind)%1000))
+		res := pbfScan(mut, 1, nil, 0)
+		vAssert(!res.Hung)
+		vAssert(res.Panic == nil)
+		vAssert(res.Err != nil)
+		return
+	}
 	k := len(starts) - 2 // last data block
 	hs := int(data[starts[k]+3])
 	hdr := data[starts[k]+4 : starts[k]+4+hs]
@@ -106,7 +163,7 @@ func oracleC06Damage(f PbfFile, kind int) {
 	}
 	vAssume(pos >= 0)
 	mut := append([]byte{}, data[:starts[k]+4+pos+1]...)
-	switch pbfAbs(kind) % 2 {
+	switch pbfAbs(kind) % 5 {
 	case 0: // datasize = -1 (ten-byte varint)
 		mut = append(mut, 0xff, 0xff, 0xff, 0xff, 0xff, 0xff, 0xff, 0xff, 0xff, 0x01)
 	default: // datasize = 64 MiB
@@ -142,12 +199,14 @@ func (r *pbfCountingReader) Read(p []byte) (int, error) {
 //@ func oracleC07Close
 //@   props C07
 //@   oracle
+//@   covers osm/osmpbf.
 func oracleC07Close(b PbfBlock, k int, procs int) {
 	f := PbfFile{}
 	if len(b.Nodes) == 0 {
 		b.Nodes = []PbfNode{{ID: 1}}
 	}
 	b.Ways, b.Rels = nil, nil
+	b.ShortStrings, b.ExtraColumn = false, false // an intact file: no decoding error gets recorded
 	for i := 0; i < 80; i++ {
 		f.Blocks = append(f.Blocks, b)
 	}
@@ -173,4 +232,130 @@ func oracleC07Close(b PbfBlock, k int, procs int) {
 	consumed := r.pos
 	time.Sleep(2 * time.Millisecond)
 	vAssert(r.pos == consumed && consumed < len(data)) // nothing keeps reading in the background
+}
+
+// C09: "the reported fully-scanned byte count is the offset ... of the block
+// containing the most recently returned object ... Starting a new scanner on
+// the same data at that offset ... yields exactly the remaining objects
+// beginning with the first object of that block."
+//
+//@ func oracleC09Resume
+//@   props C09 C02
+//@   oracle
+//@   covers osm/osmpbf.
+func oracleC09Resume(f PbfFile, stop int, procs int, skipNodes bool) {
+	pbfNormalize(&f)
+	// several small blocks so that resuming in the middle is exercised
+	if len(f.Blocks) == 1 {
+		f.Blocks = append(f.Blocks, f.Blocks[0], f.Blocks[0])
+	}
+	pbfNormalize(&f)
+	data, starts, objs := pbfBuild(f)
+	keep := func(o osm.Object) bool {
+		_, isNode := o.(*osm.Node)
+		return !(skipNodes && isNode)
+	}
+	var all []osm.Object
+	blockOf := []int{}
+	for bi, bo := range objs {
+		for _, o := range bo {
+			if keep(o) {
+				all = append(all, o)
+				blockOf = append(blockOf, bi)
+			}
+		}
+	}
+	vAssume(len(all) > 0)
+	k := pbfAbs(stop)%len(all) + 1 // stop after k objects
+	s := New(context.Background(), bytes.NewReader(data), 1)
+	s.SkipNodes = skipNodes
+	n := 0
+	for n < k && s.Scan() {
+		n++
+	}
+	vAssert(n == k)
+	off := s.FullyScannedBytes()
+	s.Close()
+	b := blockOf[k-1]
+	vAssert(off == int64(starts[b+1])) // offset of the block containing the k-th object
+	// resume there: a data block comes first instead of a header
+	var want []osm.Object
+	for i := range all {
+		if blockOf[i] >= b {
+			want = append(want, all[i])
+		}
+	}
+	res := pbfScan(data[off:], pbfAbs(procs)%4+1, func(s2 *Scanner) { s2.SkipNodes = skipNodes }, 0)
+	vAssert(!res.Hung && res.Panic == nil && res.Err == nil)
+	vAssert(len(res.Objects) == len(want))
+	for i := range want {
+		if i < len(res.Objects) {
+			vAssert(pbfSame(res.Objects[i], want[i]))
+		}
+	}
+}
+
+// C08: "Skipping element types or installing filter functions yields exactly
+// the subsequence of the unfiltered scan ... unchanged and in the same order.
+// Every object the scanner has returned is never modified afterwards."
+//
+//@ func oracleC08Filters
+//@   props C08
+//@   oracle
+//@   covers osm/osmpbf.
+func oracleC08Filters(f PbfFile, skipN, skipW, skipR bool, mode int, procs int) {
+	pbfNormalize(&f)
+	data, _, objs := pbfBuild(f)
+	all := pbfFlatten(objs, len(objs))
+	count := 0
+	pred := func(id int64) bool {
+		switch pbfAbs(mode) % 4 {
+		case 0:
+			return true
+		case 1:
+			return false
+		case 2:
+			return id%2 == 0
+		}
+		count++
+		return count%2 == 0
+	}
+	// alternating predicates are order dependent: use one decoder for them
+	p := pbfAbs(procs)%3 + 1
+	if pbfAbs(mode)%4 == 3 {
+		p = 1
+	}
+	var want []osm.Object
+	count = 0
+	for _, o := range all {
+		switch x := o.(type) {
+		case *osm.Node:
+			if !skipN && pred(int64(x.ID)) {
+				want = append(want, o)
+			}
+		case *osm.Way:
+			if !skipW && pred(int64(x.ID)) {
+				want = append(want, o)
+			}
+		case *osm.Relation:
+			if !skipR && pred(int64(x.ID)) {
+				want = append(want, o)
+			}
+		}
+	}
+	count = 0
+	res := pbfScan(data, p, func(s *Scanner) {
+		s.SkipNodes, s.SkipWays, s.SkipRelations = skipN, skipW, skipR
+		s.FilterNode = func(n *osm.Node) bool { return pred(int64(n.ID)) }
+		s.FilterWay = func(w *osm.Way) bool { return pred(int64(w.ID)) }
+		s.FilterRelation = func(r *osm.Relation) bool { return pred(int64(r.ID)) }
+	}, 0)
+	vAssert(!res.Hung && res.Panic == nil && res.Err == nil)
+	vAssert(len(res.Objects) == len(want))
+	// compared only after the whole scan: returned objects must not have been modified since
+	for i := range want {
+		if i < len(res.Objects) {
+			vAssert(pbfSame(res.Objects[i], want[i]))
+		}
+	}
 }
